@@ -199,8 +199,36 @@ def c15(tier, seed):
                      "every case (2-6 reader/writer coroutines contend for one SharedMutex on 1-3 workers)")
 
 
+def c17(tier, seed):
+    steps = [
+        Step("fam_repro", "fib-asan", 4000, 150000),
+        Step("fam_repro", "fib-plain", 0, 150000),
+    ]
+    rule = ("cases = (comparison kind, program, index); the configuration (seed, yield frequency 1-8, pick width 1-16, tick "
+            "length, CAS-fail frequency, initial injector state, program variant) is drawn from splitmix(VERIF_SEED, cell, "
+            "index). Each case records the complete sequence of (normalised fiber id, virtual time) resumes through the "
+            "YACLIB_VERIF hook plus event log, random-draw count, injected-yield count and end time, and compares two "
+            "executions: in-process re-run / new process via exec with perturbed heap and real sleeps / phase 2 restored "
+            "from a checkpoint. distinct = distinct full-trace hashes; non-trivial = trace longer than 20 resumes with at "
+            "least one injected yield.")
+    t0 = time.time()
+    res = driver.RunResult()
+    for s in steps:
+        n = s.quick if tier == "quick" else s.thorough
+        if n <= 0:
+            continue
+        driver.run_family(res, "C17", s.family, s.variant, n, seed, tier)
+        if res.harness_error:
+            break
+    return driver.finish("C17", tier, seed, "exploration", res, rule,
+                         ["five client programs (pool+strand+coroutine mutex, timed waits, weak-CAS loops, std locks/condvar, combinators)",
+                          "the trace hook reports every fiber resume; anything that does not change the resume sequence, virtual time, draws or client events is invisible"],
+                         min_distinct=200, t_start=t0)
+
+
 PLANS = {
     "C01": c01,
+    "C17": c17,
     "C13": c13,
     "C14": c14,
     "C15": c15,
